@@ -32,7 +32,7 @@ def fragments(tsn, sid, seq, ordered, size, maxrt, expiry):
     return out
 
 
-def gen_tx_case(rng):
+def gen_tx_case(rng, ssn_origins=None):
     tsn0 = rng.choice([7, 0xFFFFFFF0, 0xFFFFFFFE, 0x7FFFFFF0, 1000])
     ins = []
     tsn = tsn0
@@ -40,6 +40,7 @@ def gen_tx_case(rng):
     now = 100
     sent_hi = tsn0 - 1       # highest TSN handed to _send so far
     pr_tsns = []             # first TSNs of partially reliable messages
+    ssn0 = [rng.choice(ssn_origins or [0, 0, 65535, 65534, 65533, 32767]) for _ in range(3)]
     n = rng.randrange(4, 45)
     for _ in range(n):
         k = rng.random()
@@ -51,7 +52,9 @@ def gen_tx_case(rng):
             pr = rng.random()
             maxrt = rng.choice([0, 1]) if pr < 0.25 else None
             expiry = now + rng.choice([1, 5, 30]) if 0.25 <= pr < 0.4 else None
-            seq = seqs.get(sid, 0)
+            # stream sequence numbers start anywhere, also just below the 16-bit wrap (FORWARD-TSN stream lists then
+            # carry numbers on both sides of it)
+            seq = seqs.get(sid, ssn0[sid])
             fr = fragments(tsn, sid, seq, ordered, size, maxrt, expiry)
             if ordered:
                 seqs[sid] = (seq + 1) & 0xFFFF
@@ -77,6 +80,24 @@ def gen_tx_case(rng):
                 if rng.random() < 0.05:
                     gaps.insert(0, [5, 2])
             ins.append([1, cum, gaps, now])
+        elif k < 0.80:
+            # several small messages of one ordered partially reliable stream, then a T3 expiry: they are abandoned in the
+            # same round, so one FORWARD-TSN covers them all and names, per stream, the LAST abandoned sequence number
+            # (with the counters started near 65535 the numbers lie on both sides of the 16-bit wrap)
+            sid = rng.randrange(2)
+            for _m in range(rng.randrange(2, 4)):
+                seq = seqs.get(sid, ssn0[sid])
+                size = rng.choice([1, 10, 1200, 2400])
+                fr = fragments(tsn, sid, seq, True, size, 0, None)
+                seqs[sid] = (seq + 1) & 0xFFFF
+                ins.append([0, fr, [sid, size, True, 0, None]])
+                pr_tsns.append(tsn)
+                tsn = (tsn + len(fr)) & 0xFFFFFFFF
+                sent_hi = (tsn - 1) & 0xFFFFFFFF
+            now += 5
+            ins.append([2, now])
+            if rng.random() < 0.5:
+                ins.append([3])
         elif k < 0.86 and tsn != tsn0:
             # three reports of the same hole: the chunk just above the cumulative point is struck three times and is
             # fast-retransmitted - or abandoned, when it belongs to a partially reliable message (that is where the
@@ -94,7 +115,7 @@ def gen_tx_case(rng):
             ins.append([2, now])
         else:
             ins.append([3])
-    return {"k": 0, "tsn": tsn0, "rwnd": rng.choice([1048576, 1048576, 4000, 0]), "ins": ins}
+    return {"k": 0, "tsn": tsn0, "rwnd": rng.choice([1048576, 1048576, 4000, 0]), "ins": ins, "ssn0": ssn0}
 
 
 def gen_rto_case(rng):
@@ -256,6 +277,8 @@ class C02(Check):
             t._loop = M._Loop(sim, 0)
             t._ssthresh = case["rwnd"]
             t._association_state = S.RTCSctpTransport.State.ESTABLISHED
+            # the origin of the stream sequence numbers (the chunks of the case were numbered from it)
+            t._outbound_stream_seq = {sid: v for sid, v in enumerate(case.get("ssn0", [])) if v}
 
             async def tx(chunk):
                 if isinstance(chunk, S.DataChunk):
